@@ -132,11 +132,22 @@ def is_dynamic_expression(value: Any) -> bool:
     if not isinstance(value, str) or not value or len(value) < MIN_EXPR_LEN:
         return False
 
-    # Is not wrapped in quotes, or does not contain any tags
-    if not DYNAMIC_EXPR_RE.match(value):
+    # NOTE: This is equivalent to `DYNAMIC_EXPR_RE.match(value)`, but in linear time. The regex,
+    # with its three lazy quantifiers, takes cubic time on inputs like `'{{}}{{}}{{}}...` (no end quote).
+    if value.endswith("\n"):
+        value = value[:-1]  # `$` also matches before a trailing newline
+    # Is not wrapped in quotes
+    if len(value) < MIN_EXPR_LEN or value[0] not in ("'", '"') or value[-1] != value[0] or "\n" in value:
         return False
 
-    return True
+    # Does not contain any tags
+    inner = value[1:-1]
+    for tag_start, tag_end in (("{{", "}}"), ("{%", "%}"), ("{#", "#}")):
+        start_index = inner.find(tag_start)
+        if start_index != -1 and inner.find(tag_end, start_index + 2) != -1:
+            return True
+
+    return False
 
 
 # TODO - Move this out into a plugin?
